@@ -309,20 +309,23 @@ def rstripBlankComma (s : Str) : Str :=
 def rangeTextFromLength (its : Items) : Str :=
   rstripBlankComma ((its.map lengthItemText).flatten)
 
+/-- an item the first test of `create_range_from_length` refuses: negative lower or upper limit below 1 -/
+def lengthItemBad (i : Item) : Bool :=
+  (match i.lo with | some l => l < 0 | none => false) || (match i.hi with | some u => u < 1 | none => false)
+
+def exceeds (o : Option Int) (limit : Int) : Bool := match o with | some v => v > limit | none => false
+
 /-- `create_range_from_length(length_range)`; raises `RangeValueError` for non-positive lengths -/
 def createRangeFromLength (len : Range) : Out Range :=
   match len.items with
   | none => Range.parse []
   | some its =>
-    if its.any (fun i => (match i.lo with | some l => l < 0 | none => false) ||
-                         (match i.hi with | some u => u < 1 | none => false)) then
-      .error (.data .range)
+    if its.any lengthItemBad then .error (.data .range)
     else
       -- `"9" * n`: beyond `sys.maxsize` CPython raises OverflowError; between "large" and that a MemoryError
       -- (or minutes of work), which the model does not follow
-      let big (o : Option Int) (limit : Int) : Bool := match o with | some v => v > limit | none => false
-      if its.any (fun i => big i.lo 9223372036854775808 || big i.hi 9223372036854775808) then .error .overflow
-      else if its.any (fun i => big i.lo 10000 || big i.hi 10000) then .error .unsupported
+      if its.any (fun i => exceeds i.lo 9223372036854775808 || exceeds i.hi 9223372036854775808) then .error .overflow
+      else if its.any (fun i => exceeds i.lo 10000 || exceeds i.hi 10000) then .error .unsupported
       else Range.parse (rangeTextFromLength its)
 
 end Cutplace
